@@ -161,7 +161,7 @@ def readICtxName : Nat → List Byte → EM (List Byte)
       else if ch = 95 || ch = 45 then readICtxName fuel (acc ++ [45])
       else pure acc
 
-def varStop (b : Byte) : Bool := b = 32 || b = 10 || b = 9 || b = 13 || b = 41 || b = 44
+def varStop (b : Byte) : Bool := b = 32 || b = 10 || b = 9 || b = 13 || b = 41 || b = 44 || b = 61
 
 /-- `char::is_whitespace` (Unicode `White_Space`), used by `str::trim` -/
 def isTrimWs (c : Char) : Bool :=
